@@ -28,7 +28,7 @@ Proof. induction 1; cbn; intuition. Qed.
 
 (* ------------------------------------------------------------------ operations *)
 Definition accepted (v : vstate) (o : op) : Prop :=
-  match o with OpCompact ins outs => compact_ok v ins outs | _ => True end.
+  match o with OpCompact _ ins outs => compact_ok v ins outs | _ => True end.
 
 Definition op_batch (v : vstate) (o : op) : option (list entry) :=
   match o with OpWrite b => Some (batch_entries v b) | _ => None end.
@@ -37,7 +37,7 @@ Lemma op_walk s v o : Run s v -> accepted v o ->
   walk (fst (op_prog v s o)) s (all_entries v) (op_batch v o)
        (fun s' => snd (op_prog v s o) = true -> Run s' (op_next v o)).
 Proof.
-  intros R Ha. destruct o as [b| |ins outs]; cbn [op_prog op_batch fst snd].
+  intros R Ha. destruct o as [b| |gc ins outs]; cbn [op_prog op_batch fst snd].
   - eapply walk_conseq; [|apply write_walk, R]. auto.
   - apply flush_walk, R.
   - eapply walk_conseq; [|apply compact_walk; [exact R|exact Ha]]. auto.
@@ -47,7 +47,7 @@ Lemma all_entries_next v o : accepted v o -> forall e,
   In e (all_entries (op_next v o)) <->
   In e (all_entries v ++ match op_batch v o with Some p => p | None => [] end).
 Proof.
-  intros Ha e. destruct o as [b| |ins outs]; cbn [op_next op_batch]; unfold all_entries; cbn [v_mem v_files].
+  intros Ha e. destruct o as [b| |gc ins outs]; cbn [op_next op_batch]; unfold all_entries; cbn [v_mem v_files].
   - rewrite !in_app_iff. tauto.
   - rewrite app_nil_r. cbn [app]. rewrite in_app_iff, !in_concat. split.
     + intros (x & Hx & He). apply in_apply_edit in Hx. destruct Hx as [[Hx _]|[<-|[]]]; [right; eauto|].
@@ -214,26 +214,45 @@ Lemma deferred_stays p : forall f k s e, snd (run_prog p f k s (Some e)) <> None
 Proof.
   induction p as [|[c m] p IH]; intros f k s e; cbn [run_prog]; [discriminate|].
   destruct k; [|apply IH].
-  destruct (if match f with Some O => true | _ => false end then None else exec c s); [apply IH|].
-  destruct m; [discriminate|apply IH| |apply IH].
+  destruct m; try (apply IH);
+    (destruct (if match f with Some O => true | _ => false end then None else exec c s); [apply IH|]);
+    try (apply IH); try discriminate.
   destruct (match f with Some O => true | _ => false end); [discriminate|apply IH].
 Qed.
 
 (* a single I/O error injected at the k-th call of an operation that would otherwise succeed is
    returned to the caller, unless the Rust deliberately drops the result of that call *)
+Definition dropped (m : mode) : Prop := m = Ignore \/ m = Retire.
+
+Lemma run_ok_tail c m p s : run ((c, m) :: p) s = (fst (run ((c, m) :: p) s), None) ->
+  run p (exec_or c s) = (fst (run p (exec_or c s)), None).
+Proof.
+  unfold run, exec_or. cbn [run_prog]. intros H.
+  assert (G : forall t, snd (run_prog p None O t None) = None -> run_prog p None O t None = (fst (run_prog p None O t None), None))
+    by (intros t Ht; destruct (run_prog p None O t None); cbn in *; now subst).
+  destruct (exec c s) as [s1|] eqn:E1.
+  - apply G. destruct m; rewrite H; reflexivity.
+  - apply G. destruct m; try (rewrite H; reflexivity).
+    + cbn in H. discriminate.
+    + exfalso. pose proof (deferred_stays p None n s EIo) as Hd. rewrite H in Hd. now apply Hd.
+Qed.
+
 Lemma fault_surfaced_prog p : forall k s, run p s = (fst (run p s), None) ->
-  (k < length p)%nat -> snd (nth k p (CSync NMani, Must)) <> Ignore ->
+  (k < length p)%nat -> ~ dropped (snd (nth k p (CSync NMani, Must))) ->
   snd (run_prog p (Some k) O s None) <> None.
 Proof.
   induction p as [|[c m] p IH]; intros k s Hrun Hk Hm; [cbn in Hk; lia|].
-  unfold run in Hrun. cbn [run_prog] in *. destruct k as [|k].
-  - cbn [nth snd] in Hm. destruct m; [discriminate|congruence|discriminate|apply deferred_stays].
+  pose proof (run_ok_tail c m p s Hrun) as Htail. unfold exec_or in Htail.
+  cbn [run_prog]. destruct k as [|k].
+  - cbn [nth snd] in Hm. destruct m; try discriminate.
+    + exfalso. apply Hm. now left.
+    + exfalso. apply Hm. now right.
+    + apply deferred_stays.
   - cbn [nth] in Hm. cbn [length] in Hk.
+    unfold run in Hrun. cbn [run_prog] in Hrun.
     destruct (exec c s) as [s1|] eqn:E1.
-    + apply IH; [|lia|exact Hm]. unfold run. destruct (run_prog p None O s1 None) as [t [e|]] eqn:R; [cbn in Hrun; discriminate|reflexivity].
-    + destruct m.
+    + destruct m; (apply IH; [exact Htail|lia|exact Hm]).
+    + destruct m; try (apply IH; [exact Htail|lia|exact Hm]).
       * cbn in Hrun. discriminate.
-      * apply IH; [|lia|exact Hm]. unfold run. destruct (run_prog p None O s None) as [t [e|]] eqn:R; [cbn in Hrun; discriminate|reflexivity].
-      * apply IH; [|lia|exact Hm]. unfold run. destruct (run_prog p None O s None) as [t [e|]] eqn:R; [cbn in Hrun; discriminate|reflexivity].
-      * exfalso. pose proof (deferred_stays p None n s EIo) as H. destruct (run_prog p None n s (Some EIo)) as [t [e|]]; [cbn in Hrun; discriminate|now apply H].
+      * exfalso. pose proof (deferred_stays p None n s EIo) as H. rewrite Hrun in H. now apply H.
 Qed.
